@@ -309,7 +309,7 @@ func main() {
 // listed write no shared memory. Two templates with different layouts in the same space touch each other's
 // bytes from different lanes: harmless inside one wavefront (program order), a data race between wavefronts.
 var footprint = map[string]string{
-	"flat_st_byte": "tmp:4*gid", "flat_st_short": "tmp:4*gid", "flat_st_dword_ld": "tmp:4*gid", "flat_st_partial_exec": "tmp:4*gid",
+	"flat_st_byte": "tmp:4*gid", "loop_masked_store": "tmp:4*gid", "flat_st_short": "tmp:4*gid", "flat_st_dword_ld": "tmp:4*gid", "flat_st_partial_exec": "tmp:4*gid",
 	"flat_st_x2":         "tmp:16*lid",
 	"flat_st_x4_cross12": "tmp:16*gid+12/16", "flat_st_x4_cross4": "tmp:16*gid+4/16", "flat_st_x2_cross": "tmp:16*gid+12/8",
 	"lds_rw32": "lds:4*lid", "barrier_lds_exchange": "lds:4*lid", "lds_rw64": "lds:8*lid", "lds_read2": "lds:8*lid", "lds_offset": "lds:4*lid+16",
